@@ -44,6 +44,11 @@ func (f *AppArmorProfileFile) Resolve() error {
 		}
 	}
 
+	// A cycle between variables (@{a} = @{b}, @{b} = @{a}) cannot be expanded
+	if name := f.cyclicVariable(); name != "" {
+		return fmt.Errorf("recursive variable found in: %s", name)
+	}
+
 	// Resolve variables
 	for _, variable := range f.Preamble.GetVariables() {
 		newValues := []string{}
@@ -71,6 +76,36 @@ func (f *AppArmorProfileFile) Resolve() error {
 	}
 
 	return nil
+}
+
+// cyclicVariable returns the name of a variable whose values refer, through
+// any number of other variables, to the variable itself ("" when there is none).
+func (f *AppArmorProfileFile) cyclicVariable() string {
+	variables := f.Preamble.GetVariables()
+	refs := map[string][]string{}
+	for _, v := range variables {
+		for _, value := range v.Values {
+			for _, m := range regVariableReference.FindAllStringSubmatch(value, -1) {
+				if !slices.Contains(refs[v.Name], m[1]) {
+					refs[v.Name] = append(refs[v.Name], m[1])
+				}
+			}
+		}
+	}
+	for _, v := range variables {
+		reach := slices.Clone(refs[v.Name])
+		for i := 0; i < len(reach); i++ {
+			for _, next := range refs[reach[i]] {
+				if !slices.Contains(reach, next) {
+					reach = append(reach, next)
+				}
+			}
+		}
+		if slices.Contains(reach, v.Name) {
+			return v.Name
+		}
+	}
+	return ""
 }
 
 func (f *AppArmorProfileFile) resolveValues(input string) ([]string, error) {
